@@ -290,6 +290,17 @@ pub fn run(tier: Tier) -> i32 {
                     let mid = canonical.len() / (2 * k.max(1));
                     check(lines, &mapping, &canonical, &[(mid, Ans::Hard)], k, acc);
                 }
+                // bursts of consecutive Interrupted answers (a bounded retry loop would give up): at every call of the default run
+                if let Ok(base) = execute(&mapping, &[], 0) {
+                    if base.calls.len() <= 40 {
+                        for i in 0..base.calls.len() {
+                            for n in [2usize, 99, 100, 101, 1000] {
+                                let script: Vec<(usize, Ans)> = (i..i + n).map(|k| (k, Ans::Interrupted)).collect();
+                                check(lines, &mapping, &canonical, &script, 0, acc);
+                            }
+                        }
+                    }
+                }
                 acc.sample(1, || json!({"mapping": esc(&mapping), "canonical_len": canonical.len(), "calls_with_default_sink": execute(&mapping, &[], 0).map(|r| r.calls.iter().map(|c| c.0).collect::<Vec<_>>()).unwrap_or_default()}));
             }
             Some(i) => {
@@ -305,7 +316,7 @@ pub fn run(tier: Tier) -> i32 {
         prop: "C15",
         tier,
         level: "fault_enumeration",
-        rule: format!("{} mappings (each padding site exercised / not exercised, 0 classes) x all sink scripts with <= {} deviations from 'accept everything' (per call: accept 1, 2, 3, len-3, len-2 or len-1 bytes; Ok(0); Interrupted; sticky hard error; hard error for that one call only), enumerated by run-record-branch to completion, plus {} big subjects (147 / 300 / 2340 / 2341 classes) with deviation bound 1; plus uniform sinks accepting at most k = 1..16, 37, 4095..4097, 65535, 65536 bytes per call with and without a hard failure in the middle. Oracle: Ok => accepted bytes == canonical; hard failure or Ok(0) injected => Err; accepted bytes always a prefix of canonical; short writes / Interrupted alone never make the write fail. The sink implements write_vectored natively (a gathered request counts as one call). evaluations = scripts executed; distinct = distinct (result, accepted length, number of calls)", nsmall, bound, nsub - nsmall),
+        rule: format!("{} mappings (each padding site exercised / not exercised, 0 classes) x all sink scripts with <= {} deviations from 'accept everything' (per call: accept 1, 2, 3, len-3, len-2 or len-1 bytes; Ok(0); Interrupted; sticky hard error; hard error for that one call only), enumerated by run-record-branch to completion, plus {} big subjects (147 / 300 / 2340 / 2341 classes) with deviation bound 1; plus uniform sinks accepting at most k = 1..16, 37, 4095..4097, 65535, 65536 bytes per call with and without a hard failure in the middle. Oracle: Ok => accepted bytes == canonical; hard failure or Ok(0) injected => Err; accepted bytes always a prefix of canonical; short writes / Interrupted alone never make the write fail. Bursts of 2 / 99 / 100 / 101 / 1000 consecutive Interrupted answers at every call. The sink implements write_vectored natively (a gathered request counts as one call). evaluations = scripts executed; distinct = distinct (result, accepted length, number of calls)", nsmall, bound, nsub - nsmall),
         bounds: json!({"mappings": nsub, "deviation_bound": bound, "alternatives_per_call": "short(1,2,3,len-1), Ok(0), Interrupted, hard (sticky), hard (once)"}),
         assumptions: vec!["canonical = the bytes the same build writes into a Vec".into(), "Ok(0) on a non-empty buffer counts as a non-retryable failure (std::io::Write::write_all reports WriteZero)".into()],
         trusted_base: vec!["rustc/std".into(), "the scripted sink in pgmc/src/props/c15.rs".into()],
